@@ -168,6 +168,7 @@ def run_grid(ctx, desc, data, theta, feats):
     ncol = len(cols)
     log = method == "log"
     mask, bypass = desc["mask_edges"], desc["bypass"]
+    dt = desc.get("dtype", "float64")
     ex = list(desc["extra"])
     pos = ["center"] + desc["extra_pos"]
     layout = {"axes": [{"name": "Z", "pos": [[p, f"z_{p[:2]}"] for p in pos], "n": n}]}
@@ -207,7 +208,18 @@ def run_grid(ctx, desc, data, theta, feats):
             if desc["dask"] and not dask.is_dask_collection(r):
                 ctx.violation("lazy-stays-lazy", "transform of dask-backed data returned an in-memory result")
                 return
+            r_lazy = r
             r = r.compute()
+            if desc["dask"]:
+                # what the lazy result announces (its dtype) is what it delivers, so that further lazy operations on it
+                # (a sum over the new dimension) give what they give on the computed values
+                ctx.judged(("lazy-result-consistent", method, dt), True)
+                lazy_sum = r_lazy.sum(newdim if newdim in r_lazy.dims else r_lazy.dims[-1], skipna=False).compute()
+                eager_sum = r.sum(newdim if newdim in r.dims else r.dims[-1], skipna=False)
+                if r_lazy.dtype != r.dtype or not np.array_equal(np.asarray(lazy_sum.values, float), np.asarray(eager_sum.values, float), equal_nan=True):
+                    ctx.violation("lazy-result-consistent", f"transform {method} of {dt} data, dask-chunked: the lazy result announces dtype {r_lazy.dtype} but computes to "
+                                                            f"{r.dtype}; its lazy sum {np.ravel(lazy_sum.values)[:4].tolist()} vs the sum of the computed values {np.ravel(eager_sum.values)[:4].tolist()}")
+                    return
     except Exception as e:
         ctx.violation("transform-returns", f"Grid.transform({method}, target {tkind}, dask={desc['dask']}) raised {type(e).__name__}: {str(e)[:250]}")
         return
